@@ -14,6 +14,9 @@ enum Bind {
     /// not bound by this level; the level has an internal procedure definition whose formal has this name
     /// (a sibling scope that must not capture the level's own references to the name)
     SiblingFormal,
+    /// not bound by this level; after the level's definitions stands a block, (let () (define <name> ...) ...), whose
+    /// definition is local to the block
+    BlockDefine,
 }
 #[derive(Clone, Copy, PartialEq, Debug)]
 enum SetWhen {
@@ -79,7 +82,7 @@ impl Level {
 fn level_alphabet(max: u32, last: bool) -> Vec<Level> {
     let binds = [Bind::None, Bind::Param, Bind::Rest, Bind::Define];
     // the sibling-formal distractor is enumerated for the first name only (the three names are interchangeable)
-    let binds0 = [Bind::None, Bind::Param, Bind::Rest, Bind::Define, Bind::SiblingFormal];
+    let binds0 = [Bind::None, Bind::Param, Bind::Rest, Bind::Define, Bind::SiblingFormal, Bind::BlockDefine];
     let sets = [SetWhen::Never, SetWhen::Before, SetWhen::After];
     let modes: &[Mode] = if last { &[Mode::InPlace] } else { &[Mode::InPlace, Mode::Returned, Mode::Twice, Mode::TwiceKeep, Mode::Loop, Mode::LoopBind] };
     let mut out = vec![];
@@ -131,6 +134,13 @@ fn level_text(levels: &[Level], idx: usize) -> String {
             _ => String::new(),
         })
         .collect();
+    let block: String = (0..3)
+        .map(|i| match l.bind[i] {
+            Bind::BlockDefine => format!("(let () (define {} (nx!)) (lg! {} 9 a b c)) ", NAMES[i], lv),
+            _ => String::new(),
+        })
+        .collect();
+    let defines = format!("{}{}", defines, block);
     let before = sets_text(l, SetWhen::Before);
     let after = sets_text(l, SetWhen::After);
     let head = format!("(lambda {} {}(lg! {} 0 a b c) {}", l.params(), defines, lv, before);
@@ -357,7 +367,7 @@ pub fn run(ctx: &Ctx) -> i32 {
     rep.transitions = Some(acc.evals * 2);
     rep.traces_validated = Some(acc.nontrivial);
     rep.rule = format!(
-        "Every scope skeleton of 1..4 nested procedures over names a b c (all three also global) with total cost <= {} (quick tier: <= cost-1 for the 4-deep nests) where a level chooses, per name, its binding (none / parameter / rest parameter / internal define / - first name only - none, with a sibling internal procedure whose formal has that name), a set! (never / before the inner closure is created / after it) and how the inner closure is used (called in place / returned as a thunk and called after its creator returned / called twice / called twice with both results kept and driven only after the second activation / created three times in a named-let loop and all three called / the same with a fresh binding of c per iteration); cost = number of non-default choices. Every write stores a fresh value of a global counter and every level logs (level phase a b c) at entry, after closure creation and after the inner call; the session's last form returns the log and the globals. The log must equal the reference machine's (environment = persistent map name -> location, fresh location per activation). Non-trivial = agreement on all forms; skeletons are distinct by construction.",
+        "Every scope skeleton of 1..4 nested procedures over names a b c (all three also global) with total cost <= {} (quick tier: <= cost-1 for the 4-deep nests) where a level chooses, per name, its binding (none / parameter / rest parameter / internal define / - first name only - none, with a sibling internal procedure whose formal has that name / none, with a block (let () (define name ...) ...) after the level's definitions whose definition is local to it), a set! (never / before the inner closure is created / after it) and how the inner closure is used (called in place / returned as a thunk and called after its creator returned / called twice / called twice with both results kept and driven only after the second activation / created three times in a named-let loop and all three called / the same with a fresh binding of c per iteration); cost = number of non-default choices. Every write stores a fresh value of a global counter and every level logs (level phase a b c) at entry, after closure creation and after the inner call; the session's last form returns the log and the globals. The log must equal the reference machine's (environment = persistent map name -> location, fresh location per activation). Non-trivial = agreement on all forms; skeletons are distinct by construction.",
         b
     );
     rep.extra("cost_bound", json!(b));
